@@ -2,7 +2,7 @@
 From Coq Require Import NArith Bool List Lia.
 From stdpp Require Import base list option.
 From RecordUpdate Require Import RecordSet.
-From RC Require Import Hdr Machine RunInd Inv InvP SafeHelpers SafePrims SafeCalls SafeGlue SafeDrop SafeCmd.
+From RC Require Import Hdr Machine RunInd Inv InvP SafeHelpers SafePrims SafeCalls SafeGlue SafeDrop SafeCmd SafeCyclic.
 Import ListNotations RecordSetNotations.
 Local Open Scope N_scope.
 
@@ -15,21 +15,6 @@ Section Main.
   Hypothesis Hwf : wf_prog P = true.
 
   Notation PostOf b E c m res := (Post K PostC b E c m (fst res) (snd res)).
-
-  (** OPEN (see the report): the two commands whose lemma is not proved yet are parameters of
-      this section; everything below is proved relative to them. *)
-  Definition cmd_new_cyclic_spec : Prop :=
-    forall rec, (forall b E, rec_ok (Pre K PreC b E) (Post K PostC b E) rec) ->
-    forall b E self dst cls script sw m,
-      NoBad m -> SInv K b E [] m -> self_ok E self [CNewCyclic dst cls script sw] m ->
-      PostOf b E (KCmd self (CNewCyclic dst cls script sw)) m (cmd_new_cyclic K P rec self dst cls script sw m).
-  Definition cmd_register_spec : Prop :=
-    forall rec, (forall b E, rec_ok (Pre K PreC b E) (Post K PostC b E) rec) ->
-    forall b E self nd script c m,
-      NoBad m -> SInv K b E [] m -> self_ok E self [CRegister nd script c] m ->
-      PostOf b E (KCmd self (CRegister nd script c)) m (cmd_register K P rec self nd script c m).
-  Hypothesis H_new_cyclic : cmd_new_cyclic_spec.
-  Hypothesis H_register : cmd_register_spec.
 
   Section Rec.
     Context (rec : call -> machine -> machine * outcome).
@@ -54,8 +39,8 @@ Section Main.
       - eapply cmd_try_unwrap_ok; eauto.
       - eapply cmd_drop_value_ok; eauto.
       - eapply cmd_fin_again_ok; eauto.
-      - apply H_new_cyclic; auto.
-      - apply H_register; auto.
+      - eapply cmd_new_cyclic_ok; eauto.
+      - eapply cmd_register_ok; eauto.
       - eapply cmd_clean_ok; eauto.
       - eapply cmd_c_drop_ok; eauto.
       - eapply cmd_bag_ok; eauto.
@@ -195,8 +180,6 @@ Section Top.
           (PostC : bool -> list id -> call -> machine -> machine -> outcome -> Prop).
   Hypothesis Hconf : k_clean K = true -> k_weak K = true.
   Hypothesis Hwf : wf_prog P = true.
-  Hypothesis H_new_cyclic : cmd_new_cyclic_spec K P PreC PostC.
-  Hypothesis H_register : cmd_register_spec K P PreC PostC.
   (** part B *)
   Hypothesis Hcoll : forall rec, (forall b E, rec_ok (Pre K PreC b E) (Post K PostC b E) rec) ->
     forall b E c m, noncollector c = false -> Pre K PreC b E c m ->
@@ -242,8 +225,8 @@ Section Top.
   Lemma TopInv_init : TopInv (init K).
   Proof. intros _. exists true. split; [reflexivity|]. split; [apply SInv_init | auto]. Qed.
 
-  (** THE GOAL of the layer (modulo part B, the two OPEN commands and counter underflow, which
-      is the business of the buffer invariant: see [no_bad_split]) *)
+  (** THE GOAL of the layer (modulo part B and counter underflow, which is the business of
+      the buffer invariant: see [no_bad_split]) *)
   Theorem safe_programs fuel cmds :
     let m := fold_left (fun m c => exec_top K P fuel c m) cmds (init K) in
     clean m = true ->
